@@ -114,7 +114,7 @@ static std::string histstr(const std::vector<Call> &A, const std::vector<int> &h
     return s;
 }
 
-struct Cfg { u64 D; unsigned nthreads; int base_omp; };
+struct Cfg { u64 D; unsigned nthreads; int base_omp; int ext = 1; /* third constructor argument */ };
 
 // one transition, run in a child process: replay history, check its key, apply the call, compare
 static void transition(const Cfg &cfg, const std::vector<Call> &A, const std::vector<int> &hist, const std::string &expect_key, int ci)
@@ -185,19 +185,28 @@ static std::vector<Call> small_calls()
         {M_EXT, 8, 8, 1, 3, 1}, {M_EXT, 8, 16, 2, 3, 1}, {M_NTT, 8, 0, 1, 3, 1}, {M_INTT, 4, 0, 2, 2, 1},
     };
 }
+// calls for objects constructed with the third argument (extension > 1: the transform treats the rows from size/extension on as
+// zero): sizes below, at and above the extension factor
+static std::vector<Call> ext_calls()
+{
+    return {
+        {M_NTT, 1, 0, 1, 3, 1}, {M_NTT, 2, 0, 1, 3, 1}, {M_NTT, 4, 0, 2, 2, 1}, {M_NTT, 8, 0, 1, 3, 1}, {M_NTT, 16, 0, 2, 3, 2},
+        {M_INTT, 2, 0, 1, 3, 1}, {M_INTT, 8, 0, 2, 2, 1}, {M_INTT, 16, 0, 1, 3, 1},
+    };
+}
 static std::vector<u64> big_out(NTT_Goldilocks &o, const Call &c) { return do_call(o, c); }
 static void deep_history(const Cfg &cfg, const std::vector<Call> &A, const std::vector<int> &hist)
 {
     omp_set_num_threads(cfg.base_omp);
-    std::string cs_ = fmt("deep=%d D=%llu nthreads=%u hist=%s", A.size() == small_calls().size() ? 2 : 1, (unsigned long long)cfg.D, cfg.nthreads, histstr(A, hist).c_str());
+    std::string cs_ = fmt("deep=%d D=%llu nthreads=%u hist=%s", cfg.ext > 1 ? 3 : A.size() == small_calls().size() ? 2 : 1, (unsigned long long)cfg.D, cfg.nthreads, histstr(A, hist).c_str()) + (cfg.ext > 1 ? fmt(" ext=%d", cfg.ext) : std::string());
     std::vector<u64> got, fresh;
     {
-        NTT_Goldilocks o(cfg.D, cfg.nthreads);
+        NTT_Goldilocks o(cfg.D, cfg.nthreads, cfg.ext);
         for (size_t i = 0; i + 1 < hist.size(); i++) do_call(o, A[hist[i]]);
         got = big_out(o, A[hist.back()]);
     }
     {
-        NTT_Goldilocks f(cfg.D, cfg.nthreads);
+        NTT_Goldilocks f(cfg.D, cfg.nthreads, cfg.ext);
         fresh = big_out(f, A[hist.back()]);
     }
     rep().stat("transitions");
@@ -223,8 +232,9 @@ int main(int argc, char **argv)
         if (cu(m, "deep", 0))
         {
             Cfg cfg{cu(m, "D"), (unsigned)cu(m, "nthreads"), 4};
+            cfg.ext = (int)cu(m, "ext", 1);
             g_deepK = cfg.D / 2;
-            std::vector<Call> A = cu(m, "deep", 0) == 2 ? small_calls() : big_calls();
+            std::vector<Call> A = cu(m, "deep", 0) == 3 ? ext_calls() : cu(m, "deep", 0) == 2 ? small_calls() : big_calls();
             std::vector<int> hist;
             for (u64 x : culist(m, "hist")) hist.push_back((int)x);
             ChildResult r = run_child([&](FILE *f) { dup2(fileno(f), 1); rep().reset(); deep_history(cfg, A, hist); rep().flush(); fflush(stdout); }, 300);
@@ -373,6 +383,30 @@ int main(int argc, char **argv)
             total_states += (long long)SH.size();
             nontriv += (long long)SH.size() - (long long)SA.size();
             printf("INFO deep: all %zu histories up to depth 4 over %zu small calls (extendPol N in 1,2,4,8; NTT; INTT), no state merging\n", SH.size(), SA.size());
+        }
+        {
+            // objects constructed with extension 2, 4, 8 (domain 16): all histories up to depth 3 over eight calls
+            std::vector<Call> EA = ext_calls();
+            std::vector<std::vector<int>> EH, lvl = {{}};
+            for (int d = 1; d <= 3; d++)
+            {
+                std::vector<std::vector<int>> nx;
+                for (auto &h : lvl) for (int c = 0; c < (int)EA.size(); c++) { auto g = h; g.push_back(c); nx.push_back(g); }
+                for (auto &h : nx) EH.push_back(h);
+                lvl = nx;
+            }
+            for (int ext : {2, 4, 8})
+            {
+                Cfg ecfg{16, 3, 4};
+                ecfg.ext = ext;
+                isolated_for((long)EH.size(), args.jobs, 64, [&](long i) { deep_history(ecfg, EA, EH[i]); },
+                             [&](long i, const ChildResult &r) {
+                                 rep().viol(fmt("C19.%s.deep.%s", crash_sig(r).c_str(), mname[EA[EH[i].back()].mode]), fmt("deep=3 D=16 nthreads=3 hist=%s ext=%d", histstr(EA, EH[i]).c_str(), ext), err_tail(r));
+                             }, 300);
+                total_states += (long long)EH.size();
+                nontriv += (long long)EH.size() - (long long)EA.size();
+            }
+            printf("INFO deep: all %zu histories up to depth 3 over %zu calls on objects constructed with extension 2, 4, 8\n", EH.size(), EA.size());
         }
         printf("INFO deep: all %zu histories up to depth %d over %zu large calls (sizes 2^12..2^14), no state merging\n", H.size(), depth, A.size());
         rep().sample("deep-history", "\"history\":\"extendPol(2^13<-2^12), extendPol(2^13<-2^13), extendPol(2^14<-2^12), extendPol(2^14<-2^13,2 cols,2 blocks): last call compared with a fresh object\"", 1);
